@@ -54,7 +54,7 @@ def main(argv):
     sids = sorted(os.path.basename(p) for p in glob.glob(os.path.join(ROOT, 'seeded', 'C*'))
                   if any(fnmatch.fnmatch(os.path.basename(p), q) for q in pats))
     missed = []
-    with ThreadPoolExecutor(3) as ex:
+    with ThreadPoolExecutor(int(os.environ.get("SEEDMATRIX_JOBS", "3"))) as ex:
         for sid, res, err in ex.map(run, sids):
             if res is None:
                 print('%s ERROR %s' % (sid, err), flush=True)
